@@ -79,9 +79,9 @@ def new_swarm(c, n, members=None):
     return swarm, uris, scfs
 
 
-def args_dict(c, n, uris, prefix='a'):
-    """argument dictionary with one list of symbolic ints per member; registers a<i> in the spec namespace"""
-    lists = [c.ints('%s%d' % (prefix, i), ARGLENS[i]) for i in range(n)]
+def args_dict(c, n, uris, prefix='a', kind='list'):
+    """argument dictionary with one list (or tuple) of symbolic ints per member; registers a<i> in the spec namespace"""
+    lists = [c.ints('%s%d' % (prefix, i), ARGLENS[i], kind=kind) for i in range(n)]
     return c.dict([(uris[i], lists[i]) for i in range(n)]), lists
 
 
@@ -188,14 +188,14 @@ def _process(shape):
         elif shape == 'empty':
             ad = c.dict([])
         else:
-            ad, lists = args_dict(c, 2, uris)
+            ad, lists = args_dict(c, 2, uris, kind='tuple' if shape == 'dict-of-tuples' else 'list')
             c.snapshot('before0', 'list(a0)')
             c.snapshot('before1', 'list(a1)')
         c.let('ad', ad)
         c.call((swarm, '_process_args_dict'), scfs[j], uris[j], ad)
         c.ensure('no-exception', 'raised is None')
         c.ensure('is-list-starting-with-the-connection', "typename(result) == 'list' and len(result) >= 1 and result[0] is scf")
-        if shape == 'dict':
+        if shape in ('dict', 'dict-of-tuples'):
             c.ensure('followed-by-own-entry', 'result[1:] == before%d' % j)
             c.ensure('fresh-list', 'result is not a0 and result is not a1')
             c.ensure('dictionary-unchanged', 'list(ad.keys()) == uris and ad[uris[0]] is a0 and ad[uris[1]] is a1 and '
@@ -206,7 +206,7 @@ def _process(shape):
     return k
 
 
-for _s in ('none', 'empty', 'dict'):
+for _s in ('none', 'empty', 'dict', 'dict-of-tuples'):
     _process(_s)
 
 
